@@ -150,9 +150,9 @@ def rule_handshake_tables(ctx):
         ctx.analysed(fn)
         blocks = [s for s in walk_no_defs(fn.node) if isinstance(s, ast.If) and norm.text(s.test) == "len(self._handshake_bytes) == 4"]
         ctx.require(len(blocks) == 1, f"{cls}.dataReceived: handshake block not found")
-        run = HsRun(ctx, fn, role, _octets_tw())
+        run = HsRun(ctx, fn, role, _octets_tw(), ((0, 0), (1, 0), (0, 255)))
         run.vec.run(blocks[0].body)
-        _judge(ctx, f"twisted {role}", run, fn, role, reserved_rejected=False)
+        _judge(ctx, f"twisted {role}", run, fn, role, reserved_rejected=True)
         # accumulation of the first four octets across reads, decided cell-wise over (octets buffered before) x (length of this read): the
         # stream positions 0..3 are collected, the handshake is judged exactly when the fourth arrives, what lies behind is re-processed
         import copy
@@ -266,7 +266,7 @@ def _judge(ctx, tag, run, fn, role, reserved_rejected, aio=False):
     ctx.per_rule[ctx.cur_rule][f"{tag} cells"] = cells
     bad = run.attach != valid
     k = int(np.argmax(bad)) if bad.any() else 0
-    ctx.ob(f"{tag}: session attached iff magic 0x7F and serializer {'supported' if role == 'server' else 'as requested'} ({cells} handshakes)", not bad.any(),
+    ctx.ob(f"{tag}: session attached iff magic 0x7F, serializer {'supported' if role == 'server' else 'as requested'} and reserved octets zero ({cells} handshakes)", not bad.any(),
            f"{int(bad.sum())} handshakes judged wrongly, e.g. octets {int(o1[k]):#04x} {int(o2[k]):#04x} {int(o3[k])} {int(o4[k])}: "
            f"{'attached' if run.attach[k] else 'refused'}", fn.loc())
     refused = ~valid
